@@ -91,6 +91,8 @@ partial def search (ops : List HOp) (d : Dir) : Bool :=
 def run (st : St) (args : List String) : St × String :=
   match args with
   | ["sd.reset"] => (fresh, "ok")
+  -- a subscriber whose connection takes no more writes: what an operation does and answers does not depend on who listens
+  | ["sd.deaf"] => (st, "ok")
   | ["sd.reg", name, machine, process, eps] =>
     let (st1, i) := mkInfo st name machine process eps 0
     let (d', r) := register st1.d i
